@@ -8,9 +8,9 @@ R3     spec/WireTrace.tla every recorded line checked against Wire!Enc etc.
 import json, os
 from lib import vlib
 
-C01_REASONS = ["build", "read", "dhdr", "davps", "reser"]
-C02_REASONS = ["enc", "hlen", "davps@wire", "read@wire", "dhdr@wire"]
-ORDER = ["generator-not-wf", "vdict", "build", "enc", "hlen", "read", "dhdr", "davps", "reser"]
+C01_REASONS = ["build", "wser", "read", "dhdr", "davps", "reser"]
+C02_REASONS = ["enc", "hlen", "wenc", "lenbook", "davps@wire", "read@wire", "dhdr@wire"]
+ORDER = ["generator-not-wf", "vdict", "build", "enc", "hlen", "wenc", "wser", "lenbook", "read", "dhdr", "davps", "reser"]
 
 
 def leaf_class(a):
@@ -99,6 +99,12 @@ def run(ctx, prop):
             g["generated"] += g2["generated"]
             g["distinct"] += g2["distinct"]
         nrand = 3000 if quick else 60000
+        if prop == "C02":
+            lb = vlib.tlc_generate(ctx.scratch, "LenBook", "LenBook_quick.cfg" if quick else "LenBook_thorough.cfg", workers=4)
+            cases += [c for c in lb["cases"] if c["ops"]]
+            g["generated"] += lb["generated"]
+            g["distinct"] += lb["distinct"]
+            ctx.log("R1/R2: LenBook %d states (invariant hlen = 20 + padded sizes holds), %d operation histories" % (lb["distinct"], len(lb["cases"])))
         ctx.log("R2: %d abstract messages from TLC (%d states)" % (len(cases), g["distinct"]))
     lines, bad, st = run_pipeline(ctx, cases, nrand, "main")
     ctx.log("R3: %d lines validated, %d rejected" % (len(lines), len(bad)))
@@ -116,6 +122,14 @@ def run(ctx, prop):
         return out
 
     v = vlib.Verdict(prop)
+    lbn = 0
+    for i, reasons in sorted(bad.items()):
+        line = lines[i]
+        if line["ev"] == "lenbook":
+            if "lenbook" in mine:
+                v.report("lenbook:%s:%s" % (line["start"], "-".join(o["op"] for o in line["ops"][-2:])),
+                         dict(start=line["start"], ops=line["ops"]), detail="after=%s err=%s" % (line["after"], line["err"]))
+            del bad[i]
     # attribute each rejected message to the AVP(s) that fail on their own
     units, owner = [], []
     direct = []
@@ -170,6 +184,7 @@ def run(ctx, prop):
             first = [r for r in ORDER if r in rs][0]
             v.report("%s:%s:combination" % (line["ev"], first), case, detail="reasons=%s rerr=%s; no single AVP fails alone" % (rs, line.get("rerr")))
 
+    lbl = [l for l in lines if l["ev"] == "lenbook"]
     msgs = [l for l in lines if l["ev"] in ("msg", "wire")]
     keys = set()
     for l in msgs:
@@ -177,7 +192,8 @@ def run(ctx, prop):
             keys.add((l["ev"], l["m"]["hdr"]["flags"], shape_key(l["m"]["avps"])))
     samples = [dict(m=l["m"], bytes=l["bytes"][:64], src=l["src"]) for l in msgs[1:200:67]]
     cov = dict(states=g["distinct"] + st["distinct"], transitions=g["generated"] + st["generated"],
-               traces_validated_against_impl=len(msgs), evaluations=len(msgs), distinct_nontrivial=len(keys),
+               traces_validated_against_impl=len(msgs) + len(lbl), evaluations=len(msgs) + len(lbl), distinct_nontrivial=len(keys) + len(lbl),
+               lenbook_histories=len(lbl),
                rule="messages = every state of spec/WireGen.tla (exhaustive over its shape classes, up to the configured number of AVPs) "
                     "+ seeded random trees over the verification dictionary + one message per AVP definition of the embedded dictionaries; "
                     "non-trivial = at least two AVPs, or a grouped AVP, or a payload needing padding; distinct by (event, header flags, structural shape with value classes)",
